@@ -45,6 +45,8 @@ class Layout:
         n = rng.randint(1, 4)
         failpos = rng.randrange(n) if fail else None
         for i in range(n):
+            if rng.random() < 0.2:
+                out += [('>>>', 'src')]            # a bare prompt used as spacing (an empty source line of the part)
             if i == failpos:
                 if fail == 'raise_multiline':
                     out += [('>>> z = [1,  # %s' % self.mark(), 'src'), ('...      1 // 0,  # %s' % self.mark(), 'fail'), ('...      3]  # %s' % self.mark(), 'src')]
